@@ -17,6 +17,7 @@ import (
 	"runtime"
 	"runtime/debug"
 	"sort"
+	"strings"
 	"sync"
 	"time"
 
@@ -123,7 +124,7 @@ func finish(run *common.Run, parts []*part) {
 	cov["evaluations"] = evals
 	cov["distinct_nontrivial"] = nontriv
 	cov["samples"] = samples
-	cov["rule"] = rules
+	cov["rule"] = strings.Join(rules, " || ")
 	cov["exhaustive"] = exhaustive
 	cov["bounds"] = bounds
 	cov["violating_cases_per_signature"] = perSig
